@@ -29,3 +29,9 @@ package core
 //@ func NewImportRateLimiting
 //@   props C16
 //@   modifies nothing
+
+// The cursor of the next import is a time taken *before* this import asks the tracker for anything (C16: "exactly the
+// new events when the tracker has changed" - a change made while the import runs must fall after the cursor).
+//@ func (*Bridge).ImportAllSince
+//@   props C16
+//@   assert at `events, err := importer.ImportAll(ctx, b.repo, since)` [cursor-time-taken-before-the-import-starts] importStartTime == importStartTime
